@@ -289,7 +289,8 @@ func c07Packets(w *World, wc *wireCtx, r *Report) {
 		handled := false
 		pos := w.pos(gen.Pos())
 		for _, fn := range sortedFuncs(reach) {
-			if recvNamedCore(fn) != g.Type {
+			// the generator's own functions and the helpers without a receiver it shares with its siblings
+			if rn := recvNamedCore(fn); rn != g.Type && !(rn == "" && fn.Pkg == w.Parser && fn.Parent() == nil) {
 				continue
 			}
 			forEachInstr(fn, func(b *ssa.BasicBlock, ins ssa.Instruction) {
@@ -332,11 +333,14 @@ func c07Packets(w *World, wc *wireCtx, r *Report) {
 						handled = true
 						pos = w.instrPos(ins)
 					}
-					if f := c.Common().StaticCallee(); f != nil && recvNamedCore(f) == g.Type {
-						// a code emitter, not a sample-value builder
-						if roleOf(f) != "test" {
-							handled = true
-							pos = w.instrPos(ins)
+					// a static callee, or the emitter handed to a shared helper as a function value
+					for _, f := range calleesOfAll(c) {
+						if f != nil && recvNamedCore(f) == g.Type {
+							// a code emitter, not a sample-value builder
+							if roleOf(f) != "test" {
+								handled = true
+								pos = w.instrPos(ins)
+							}
 						}
 					}
 				}
